@@ -319,6 +319,18 @@ Section Server.
       | OTHER => NotAllowed405
       end.
 
+  (* HTTPIndexHandler.head: 404 only when the index does not exist, 400 (as GET) when it cannot
+     be opened or is a directory, 200 otherwise.  [prefix = true] is the handler before the
+     fixes "HEAD ... answers 404 only for a missing index" and "... does not report directories
+     as indexes": every open error was 404 and a directory was 200. *)
+  Definition index_head_status (prefix : bool) (o : open_result) : response :=
+    match o with
+    | ONotExist => resp 404 []
+    | OErr => if prefix then resp 404 [] else resp 400 []
+    | OIsDir => if prefix then resp 200 [] else resp 400 []
+    | OFile _ => resp 200 []
+    end.
+
   (* HTTPIndexHandler.get / head / put over a LocalIndexStore *)
   Definition index_exec (d : idir) (a : action) : response * idir :=
     match a with
@@ -335,11 +347,7 @@ Section Server.
                      | Some ix => (resp 200 (idx_encode ix), d)
                      end
         end
-    | IdxHead n =>
-        match fs_open d n with
-        | ONotExist | OErr => (resp 404 [], d)
-        | OIsDir | OFile _ => (resp 200 [], d)
-        end
+    | IdxHead n => (index_head_status false (fs_open d n), d)
     | IdxPut n b =>
         match idx_decode b with
         | None => (resp 415 [], d)
